@@ -41,7 +41,9 @@ func (sm3 *SM3) p1(x uint32) uint32 { return x ^ sm3.leftRotate(x, 15) ^ sm3.lef
 func (sm3 *SM3) leftRotate(x uint32, i uint32) uint32 { return x<<(i%32) | x>>(32-i%32) }
 
 func (sm3 *SM3) pad() []byte {
-	msg := sm3.unhandleMsg
+	// pad a copy: the unprocessed tail belongs to the running state
+	msg := make([]byte, len(sm3.unhandleMsg), len(sm3.unhandleMsg)+72)
+	copy(msg, sm3.unhandleMsg)
 	msg = append(msg, 0x80) // Append '1'
 	blockSize := 64         // Append until the resulting message length (in bits) is congruent to 448 (mod 512)
 	for len(msg)%blockSize != 56 {
@@ -230,24 +232,16 @@ func (sm3 *SM3) Write(p []byte) (int, error) {
 // Sum appends the current hash to b and returns the resulting slice.
 // It does not change the underlying hash state.
 func (sm3 *SM3) Sum(in []byte) []byte {
-	_, _ = sm3.Write(in)
 	msg := sm3.pad()
 	//Finalize
 	digest := sm3.update2(msg)
 
-	// save hash to in
-	needed := sm3.Size()
-	if cap(in)-len(in) < needed {
-		newIn := make([]byte, len(in), len(in)+needed)
-		copy(newIn, in)
-		in = newIn
-	}
-	out := in[len(in) : len(in)+needed]
+	// append hash to in
+	var out [32]byte
 	for i := 0; i < 8; i++ {
 		binary.BigEndian.PutUint32(out[i*4:], digest[i])
 	}
-	return out
-
+	return append(in, out[:]...)
 }
 
 func Sm3Sum(data []byte) []byte {
